@@ -4,6 +4,7 @@
 mod out;
 mod rng;
 mod c12;
+mod c13;
 mod c14;
 mod c19;
 mod probes;
@@ -41,6 +42,7 @@ fn main() {
     std::panic::set_hook(Box::new(|_| {}));
     match (cmd.as_str(), a.prop.as_str()) {
         ("gen", "C12") => c12::gen(&a),
+        ("gen", "C13") => c13::gen(&a),
         ("gen", "C14") => c14::gen(&a),
         ("gen", "C19") => c19::gen(&a),
         _ => { eprintln!("unknown command/property"); std::process::exit(2); }
